@@ -523,10 +523,34 @@ Definition accept_conn_shard (p : pool_view) (want sh : N) : bool :=
 (* acceptor of the refiller tie: the pool the model's refiller holds after the observed history of
    connections becoming ready / being cut is the observed pool (server-side shards, slot by slot) *)
 Definition refill_ok (size : pool_size) (evs : list pool_event) (final : list N) : bool :=
-  list_eqb (map conn_shard (concat (rf_conns (pool_run size evs)))) final &&
-  (* nothing is left in the excess list once the pool is full *)
-  (negb (rf_is_full size (pool_run size evs)) ||
-   match rf_excess (pool_run size evs) with [] => true | _ => false end).
+  list_eqb (map conn_shard (concat (rf_conns (pool_run size evs)))) final.
+
+(* the connections the model's refiller LETS GO along a history (a surplus connection dropped at once,
+   the excess list trimmed when the pool becomes full or over its limit, everything on a resharding):
+   held before the step or arriving with it, and no longer held after it *)
+Definition rf_held (r : refiller) : list conn := concat (rf_conns r) ++ rf_excess r.
+Definition released_step (size : pool_size) (r : refiller) (e : pool_event) : list conn :=
+  match e with
+  | EvReady c _ =>
+      filter (fun x => negb (existsb (conn_eqb x) (rf_held (pool_step size r e)))) (rf_held r ++ [c])
+  | EvBroken _ => []
+  end.
+Fixpoint refill_released (size : pool_size) (r : refiller) (evs : list pool_event) : list conn :=
+  match evs with
+  | [] => []
+  | e :: t => released_step size r e ++ refill_released size (pool_step size r e) t
+  end.
+(* a released connection as the mock can name it: (server-side shard, shard count it was told) *)
+Definition conn_key (c : conn) : N * N :=
+  (conn_shard c, match cinfo c with Some (_, nr, _) => nr | None => 0%N end).
+Definition count_key (k : N * N) (l : list (N * N)) : nat :=
+  List.length (filter (fun x => N.eqb (fst x) (fst k) && N.eqb (snd x) (snd k)) l).
+Definition same_keys (a b : list (N * N)) : bool :=
+  (List.length a =? List.length b)%nat && forallb (fun k => (count_key k a =? count_key k b)%nat) a.
+(* second acceptor of the refiller tie: the pool connections the CLIENT closed during the history are,
+   as a multiset of (shard, shard count), the ones the model lets go *)
+Definition refill_closed_ok (size : pool_size) (evs : list pool_event) (closed : list (N * N)) : bool :=
+  same_keys (map conn_key (refill_released size rf_init evs)) closed.
 (* how many ready connections the model's refiller has let go (dropped at once or trimmed) *)
 Definition refill_dropped (size : pool_size) (evs : list pool_event) : nat :=
   let r := pool_run size evs in
